@@ -1995,7 +1995,7 @@ VARIANTS = [
 
 META = {
     "design_ref": "DESIGN.md section 3, C04",
-    "technique": "exception-escape analysis around the evaluator, yield-shape typestate of rule generators, progress analysis of text recursion (path condition with ghost 'filled' facts), loop-variant table, keyless ordering of optional components, signal-protocol contradiction rule, template closure",
+    "technique": "exception-escape analysis around the evaluator, yield-shape typestate of rule generators, progress analysis of text recursion (path condition with ghost 'filled' facts), loop-variant table, keyless ordering of optional components, signal-protocol contradiction rule, template closure; fence checks of the entry point (depth) and the evaluator (cost); regex-AST backtracking-order rule; errors policy of cut byte decodes; effect rule for the tracing path",
     "level_text": ("Decides on the current source the structural mechanisms that keep the formatter from crashing or "
                    "looping: evaluator failures become the 'unknown' signal and are handled, results of the evaluator are "
                    "not used in raising operations without handler/type test, rule generators yield well-shaped rewrites, "
